@@ -217,6 +217,23 @@ def check(ctx):
         f, n, t = un[0]
         raise AnalysisError(f"unclassified operation at {f.module.path}:{getattr(n, 'lineno', 0)} in {f.qualname}: {t} "
                             f"(extend the operation table after reading the documentation)")
+    # the per-group frames handed to user callbacks (aggregate, grouped modify) are cut with copying (advanced) indexing
+    vr = repo.functions.get(f"{DF}._view_rows")
+    if vr is not None:
+        sv = I.summary(vr)
+        # the row index is a parameter (an index array at every call site: C04 IDX-3); only an index that may be a
+        # slice OBJECT makes the selection a view
+        el = sv.returns.elem if sv.returns is not None else None
+        probs = []
+        if sv.returns is None:
+            probs = [("nothing returned", set(), None)]
+        elif el is not None and "via-slice" in el.flags and ours(el.alias):
+            probs = [("column", ours(el.alias), el)]
+        ctx.ob("OWN-1", vr, "per-group frame returned by _view_rows", vr.node, not probs,
+               "its columns are fresh copies of the selected rows" if not probs else
+               f"the per-group frames may share memory with {sorted(probs[0][1]) if probs[0][1] else '?'}: the row index can be a basic "
+               f"slice, which yields views -- a callback in group_by().modify() that edits its argument in place then rewrites the "
+               f"receiver's columns", chain=[f"abstract value: {sv.returns!r}"], clause="returns data that shares no memory with them")
     ctx.count("DataFrame entry methods", n_methods[DF], 60)
     ctx.count("Vector entry methods", n_methods[VEC], 40)
     ctx.count("yield sites of generator methods", n_yield, 20)
